@@ -199,13 +199,9 @@ def _index_is_top(sub: ast.Subscript) -> bool:
     return isinstance(s, ast.UnaryOp) and isinstance(s.op, ast.USub) and isinstance(s.operand, ast.Constant) and s.operand.value == 1
 
 
-def check_storage_discipline(ctx: RuleContext, r, tag: str = "C05.4"):
-    m = ctx.model
-    need(len(r.thread_locals) >= 1, "no threading.local() storage object found")
-    push, pop, get, set_ = r.push, r.pop, r.get, r.set
-    for f in (push, pop, get, set_):
-        ctx.saw(f)
-    # which thread-local holds the stack: the one push appends to
+def locate_stack(r):
+    """The thread-local attribute that holds the context stack: the one push appends to."""
+    push = r.push
     al = r.local_aliases(push)
     stack_tl, stack_attr = None, None
     appended = None
@@ -216,6 +212,16 @@ def check_storage_discipline(ctx: RuleContext, r, tag: str = "C05.4"):
                 stack_tl, stack_attr = t[0], t[1][0]
                 appended = n
     need(appended is not None, "push_shape_memo no longer appends to a thread-local stack (role lost)")
+    return stack_tl, stack_attr, appended
+
+
+def check_storage_discipline(ctx: RuleContext, r, tag: str = "C05.4"):
+    m = ctx.model
+    need(len(r.thread_locals) >= 1, "no threading.local() storage object found")
+    push, pop, get, set_ = r.push, r.pop, r.get, r.set
+    for f in (push, pop, get, set_):
+        ctx.saw(f)
+    stack_tl, stack_attr, appended = locate_stack(r)
     ctx.ok(tag, push.qualname, f"appends to thread-local {stack_tl[1]}.{stack_attr}")
 
     # --- push: tuple of fresh dicts + copy of the arguments
@@ -330,7 +336,9 @@ def check_storage_discipline(ctx: RuleContext, r, tag: str = "C05.4"):
                     construct=f"import {stack_tl[1]}")
 
 
-def _check_set(ctx, r, set_, stack_tl, stack_attr, tag):
+def _check_set(ctx, r, set_, stack_tl, stack_attr, tag, t3=None, t4=None):
+    t3 = t3 or tag
+    t4 = t4 or tag
     al = r.local_aliases(set_)
     params = [p for p in set_.params]
     need(len(params) == 4, "set_shape_memo no longer takes the four memos")
@@ -347,13 +355,13 @@ def _check_set(ctx, r, set_, stack_tl, stack_attr, tag):
                         continue
                     found = True
                     if not _index_is_top(t):
-                        ctx.bad("C04.4", set_, n, "set_shape_memo writes a context other than the innermost one")
+                        ctx.bad(t4, set_, n, "set_shape_memo writes a context other than the innermost one")
                         continue
                     v = n.value
                     if isinstance(v, ast.Tuple) and [getattr(e, "id", None) for e in v.elts] == params:
-                        ctx.ok("C04.4", set_.qualname, "replaces the top of the stack with the four memos in parameter order")
+                        ctx.ok(t4, set_.qualname, "replaces the top of the stack with the four memos in parameter order")
                     else:
-                        ctx.bad("C04.3", set_, n, "set_shape_memo stores the memos in a different order than its parameters")
+                        ctx.bad(t3, set_, n, "set_shape_memo stores the memos in a different order than its parameters")
         # shape (b): in-place restore of the dicts on top of the stack
         if isinstance(n, ast.For) and isinstance(n.iter, ast.Call) and isinstance(n.iter.func, ast.Name) and n.iter.func.id == "zip":
             za = n.iter.args
@@ -370,10 +378,10 @@ def _check_set(ctx, r, set_, stack_tl, stack_attr, tag):
                 if isinstance(topsrc, ast.Subscript) and r.tl_of_expr(set_, topsrc.value, al) is not None:
                     found = True
                     if not _index_is_top(topsrc):
-                        ctx.bad("C04.4", set_, n, "set_shape_memo restores a context other than the innermost one")
+                        ctx.bad(t4, set_, n, "set_shape_memo restores a context other than the innermost one")
                         continue
                     if not (isinstance(newsrc, ast.Tuple) and [getattr(e, "id", None) for e in newsrc.elts] == params):
-                        ctx.bad("C04.3", set_, n, "set_shape_memo pairs the stored memos with its parameters in a different order")
+                        ctx.bad(t3, set_, n, "set_shape_memo pairs the stored memos with its parameters in a different order")
                         continue
                     old_v, new_v = n.target.elts[0].id, n.target.elts[1].id
                     calls = [c for c in ast.walk(n) if isinstance(c, ast.Call) and isinstance(c.func, ast.Attribute)
@@ -382,9 +390,9 @@ def _check_set(ctx, r, set_, stack_tl, stack_attr, tag):
                     upd_ok = any(c.func.attr == "update" and len(c.args) == 1 and isinstance(c.args[0], ast.Name)
                                  and c.args[0].id == new_v for c in calls)
                     if "clear" in names and upd_ok and names.index("clear") < names.index("update"):
-                        ctx.ok("C04.4", set_.qualname, "restores the four dicts on top of the stack in place (clear, then update from the snapshot)")
+                        ctx.ok(t4, set_.qualname, "restores the four dicts on top of the stack in place (clear, then update from the snapshot)")
                     else:
-                        ctx.bad("C04.4", set_, n, "in-place restore does not clear the live dict and then copy the snapshot into it")
+                        ctx.bad(t4, set_, n, "in-place restore does not clear the live dict and then copy the snapshot into it")
     need(found, "set_shape_memo: no write to the top of the thread-local stack recognised (role lost / shape not recognised)")
     # guard: the write is control dependent on the has-memo test
     cfg = NoReturn(ctx.model).cfg(set_)
@@ -401,9 +409,9 @@ def _check_set(ctx, r, set_, stack_tl, stack_attr, tag):
                 tests = [cfg.nodes[i] for i in dom if cfg.nodes[i].kind == "test"]
                 if not any(_is_has_test(ctx.model, set_, t.ast, has_fn, r, al) for t in tests):
                     guarded = False
-                    ctx.bad("C04.4", set_, node.ast, "set_shape_memo touches the stack without first testing that a context exists")
+                    ctx.bad(t4, set_, node.ast, "set_shape_memo touches the stack without first testing that a context exists")
     if guarded:
-        ctx.ok("C04.4", set_.qualname, "the write is guarded by the context-exists test")
+        ctx.ok(t4, set_.qualname, "the write is guarded by the context-exists test")
 
 
 def _is_has_test(model, fn, test, has_fn, r, al) -> bool:
